@@ -29,6 +29,11 @@ CHECKS = {
         text="Lean theorems: the ip/ipv4/ipv6 relations hold for every behaviour of the library parsers; the dispatch covers exactly the 14 named formats and rejects every other name (table regenerated from /repo); exact characterisation of goa's hostname regex as written and a kernel-checked witness that it is not the host name format (known finding); spec dotted quads match goa's IPv4 regex; the pattern cache as an interleaving transition system: under every schedule of the atomic steps the cache maps a pattern only to its own compiled form and every verdict is match(compile p) v of the call's own arguments (history- and schedule-independence), with the lock/key discipline the model assumes decided over facts extracted from the real ValidatePattern. Tie: real ValidateFormat verdicts vs Lean specification recognisers (date, ipv4, uuid, mac, cidr, hostname) and vs validity-by-construction for the other formats; ValidatePattern vs regexp.MatchString over long sequential histories and under the race detector.",
         note="Partial on schedules: the Go memory model is not modelled (race detector explores, theorem covers interleavings of modelled atomic steps). Library parsers are exercised, not proved; spec recognisers are hand-written specifications.",
         ref="DESIGN.md §3 C17"),
+    "C11": dict(
+        category="proof",
+        text="Lean theorems over a statement-by-statement model of Context.Roots/sortDependencies and RunDSL: phases_barrier (for every world, registration order and DSL behaviour the callback trace is D* P* V* F*), exec_errors_gate and validation_errors_together (all errors of a phase returned together, nothing later runs), finalize_only_if_ok, roots_nodup, roots_complete, and kernel-checked witnesses for the two known findings (self-dependency not reported; DSL of an expression appended during execution never runs). The topological-order claim of Roots is decided by exhaustive enumeration of every irreflexive digraph on <=4 roots x every registration order on the real engine plus correspondence with the model (theorem roots_topo: see DESIGN.md for status). Tie: real eval engine with instrumented roots/expressions vs the compiled model, 0 disagreements required.",
+        note="Trusted: Lean kernel; hand-written model (fuel-bounded recursion) validated by correspondence; DependsOn returning never-registered roots is outside the envelope (characterised by correspondence only).",
+        ref="DESIGN.md §3 C11"),
 }
 
 m = {
